@@ -63,7 +63,11 @@ func c12Session(r *rand.Rand, alpha []sym, P string, own string, n int) []wire.R
 		case 5:
 			reqs = append(reqs, wire.P(wire.OpStat, []string{"/file.bin", own, P + "/old.bin", "/nope"}[r.Intn(4)]), wire.P(wire.OpDirSize, []string{"/dir", P}[r.Intn(2)]))
 		case 6: // PSX sector reads: per-connection sector size
-			reqs = append(reqs, wire.P(wire.OpOpen, "/file.bin"), wire.CD(0, 1), wire.CD(1, 1))
+			if r.Intn(3) == 0 {
+				reqs = append(reqs, wire.P(wire.OpOpen, "/file.bin"), wire.CD(0, 1), wire.CD(1, 1))
+			} else {
+				reqs = append(reqs, wire.P(wire.OpOpen, fmt.Sprintf("/cd%d/game.bin", r.Intn(4))), wire.CD(16, 1), wire.CD(uint32(r.Intn(800)), uint32(1+r.Intn(3))))
+			}
 		default: // a few symbols of the C03 alphabet on the private subtree
 			for k := 0; k < 3; k++ {
 				reqs = append(reqs, alpha[r.Intn(len(alpha)-2)].mk(P))
@@ -78,6 +82,13 @@ func C12(e *Env) {
 	run.Rule = "cases: one oracle-checked session per client per round; rounds of 2..64 concurrent clients (each with a private writable subtree, a private file of unique content, and the shared generated / encrypted images) against a race-built worker (spy file system yielding at every operation, small socket writes) and the race-built real binary, under GOMAXPROCS 1/2/4/16, with connection churn; verdict = every client's stream equals its sequential prediction AND zero race-detector reports; non-trivial = distinct pair of opcodes observed temporally overlapping between two clients"
 	root := e.Dir("W/root")
 	c13Tree(root)
+	// PSX images with one base name in different directories and different raw sector sizes: the
+	// sector size belongs to the connection that opened the image
+	for i, S := range []int64{2352, 2448, 2048, 2336} {
+		must(os.MkdirAll(filepath.Join(root, fmt.Sprintf("cd%d", i)), 0o755))
+		img := &cdImage{rel: fmt.Sprintf("cd%d/game.bin", i), S: S, sig: []string{"psx", "iso"}[i%2], size: 0x200000 + int64(i)*4096, wantS: S}
+		makeCD(root, img, int64(900+i), nil)
+	}
 	alpha := c03Alphabet()
 	rng := e.Rng(12)
 	type round struct {
@@ -87,7 +98,7 @@ func C12(e *Env) {
 		chunk          int
 	}
 	var rounds []round
-	for i := 0; i < e.Pick(5, 60); i++ {
+	for i := 0; i < e.Pick(12, 80); i++ {
 		n := []int{2, 8, 32}[i%3]
 		if e.Thorough && i%7 == 0 {
 			n = 64
@@ -162,8 +173,39 @@ func C12(e *Env) {
 				os.RemoveAll(filepath.Join(root, P[1:]))
 			}()
 		}
+		// aborters: clients that reset their connection in the middle of a large transfer (failed copies
+		// on the server side while the other clients keep transferring through the shared buffer pool)
+		stopAbort := make(chan struct{})
+		var awg sync.WaitGroup
+		for a := 0; a < 3; a++ {
+			awg.Add(1)
+			go func(a int) {
+				defer awg.Done()
+				<-start
+				for k := 0; ; k++ {
+					select {
+					case <-stopAbort:
+						return
+					default:
+					}
+					c, err := wire.Dial(addr, nil, e.Watchdog)
+					if err != nil {
+						return
+					}
+					c.Send(wire.P(wire.OpOpen, []string{"/big.bin", "/***DVD***/geo", "/PS3ISO/enc.iso"}[(a+k)%3]))
+					c.ReadN(16)
+					c.Send(wire.Read(200000, 0))
+					c.ReadN(4 + 1000*(k%5))
+					c.Reset()
+					run.Count("aborted_transfers", 1)
+					time.Sleep(time.Duration(1+k%3) * time.Millisecond)
+				}
+			}(a)
+		}
 		close(start)
 		wg.Wait()
+		close(stopAbort)
+		awg.Wait()
 		CrashCheck(e, p, fmt.Sprintf("c12 round %d", ri), rd)
 		p.Stop()
 		raceBlocks = append(raceBlocks, p.RaceReports()...)
